@@ -215,8 +215,33 @@ func (dtlsr *DTLSR) NotifyNewBundle(bp BundleDescriptor) {
 	}
 }
 
-func (_ *DTLSR) ReportFailure(_ BundleDescriptor, _ cla.ConvergenceSender) {
-	// if the transmission failed, that is sad, but there is really nothing to do...
+func (dtlsr *DTLSR) ReportFailure(bp BundleDescriptor, sender cla.ConvergenceSender) {
+	// Broadcast bundles are marked as sent to a peer when the peer is selected. After a failed transmission the
+	// peer needs to be eligible again, otherwise it never receives this bundle.
+	bundleItem, err := dtlsr.c.store.QueryId(bp.Id)
+	if err != nil {
+		return
+	}
+
+	sentEids, ok := bundleItem.Properties["routing/dtlsr/sent"].([]bpv7.EndpointID)
+	if !ok {
+		return
+	}
+
+	for i := 0; i < len(sentEids); i++ {
+		if sentEids[i] == sender.GetPeerEndpointID() {
+			sentEids = append(sentEids[:i], sentEids[i+1:]...)
+			break
+		}
+	}
+
+	bundleItem.Properties["routing/dtlsr/sent"] = sentEids
+	if err := dtlsr.c.store.Update(bundleItem); err != nil {
+		log.WithFields(log.Fields{
+			"bundle": bp.ID(),
+			"error":  err,
+		}).Warn("Updating BundleItem failed")
+	}
 }
 
 func (dtlsr *DTLSR) SenderForBundle(bp BundleDescriptor) (sender []cla.ConvergenceSender, delete bool) {
